@@ -79,6 +79,6 @@ CHECKS = {
 
 # registry.d/<ID>.json entries (written by engine authors) are claimed only once the coordinator has seen the check
 # quiet on the unchanged tree and firing on a seeded defect
-READY_D = {"C13", "C14", "C16", "C17"}
+READY_D = {"C13", "C14", "C16", "C17", "C18", "C19"}
 
 NOT_YET = {}
